@@ -1,6 +1,7 @@
 package zzsimrt
 
 import (
+	"runtime"
 	"syscall"
 	"unsafe"
 )
@@ -58,6 +59,7 @@ type TraceEntry struct {
 
 type gstate struct {
 	word    uint32 // futex word: 1 = has the turn
+	goid    uint64 // runtime id of the goroutine registered as this caller
 	started bool
 	done    bool
 	blocked bool
@@ -89,7 +91,29 @@ var (
 	// OnDeadlock is called (on the goroutine that detects it) when every live
 	// goroutine is spinning on a library lock. It must not return.
 	OnDeadlock func(sites []int)
+
+	// unmanaged counts scheduling points reached by goroutines the scheduler does
+	// not know (a library that starts goroutines of its own): they run free.
+	unmanaged uint64
 )
+
+// goid parses the current goroutine's id out of a small stack dump.
+//
+//go:norace
+func goid() uint64 {
+	var buf [40]byte
+	n := runtime.Stack(buf[:], false)
+	// "goroutine 123 [running]:..."
+	var id uint64
+	for i := len("goroutine "); i < n; i++ {
+		c := buf[i]
+		if c < '0' || c > '9' {
+			break
+		}
+		id = id*10 + uint64(c-'0')
+	}
+	return id
+}
 
 const (
 	sysFutex         = 202 // linux/amd64
@@ -132,6 +156,7 @@ func Begin(n int, p Policy) {
 	overrun = false
 	deadlock = false
 	lockWaits = 0
+	unmanaged = 0
 	rng = p.Seed*2862933555777941757 + 3037000493
 	if rng == 0 {
 		rng = 88172645463325252
@@ -271,6 +296,7 @@ func Enter(i int) {
 	if !simActive || i < 0 || i >= ng {
 		return
 	}
+	gs[i].goid = goid()
 	park(i)
 	gs[i].started = true
 }
@@ -364,6 +390,11 @@ type StepBudgetExceeded struct{ Limit uint64 }
 //go:norace
 func yield(site int) {
 	g := cur
+	if step&31 == 0 && gs[g].goid != goid() {
+		// (sampled: the id lookup costs about as much as thirty scheduling points)
+		unmanaged++ // not the caller that holds the turn: a goroutine the library started itself
+		return
+	}
 	gs[g].blocked = false
 	gs[g].yields++
 	blockedStreak = 0
@@ -434,6 +465,11 @@ func YieldBlocked(site int) {
 		return
 	}
 	g := cur
+	if gs[g].goid != goid() {
+		unmanaged++
+		syscall.Syscall(syscall.SYS_SCHED_YIELD, 0, 0, 0)
+		return
+	}
 	gs[g].blocked = true
 	lockWaits++
 	blockedStreak++
@@ -473,6 +509,7 @@ type Stats struct {
 	Trace        []TraceEntry
 	YieldsPerG   []uint64
 	SitesCovered int
+	Unmanaged    uint64 // scheduling points reached by goroutines the scheduler does not manage
 }
 
 // End disarms the scheduler (called by the harness after joining the callers)
@@ -481,7 +518,7 @@ type Stats struct {
 //go:norace
 func End() Stats {
 	simActive = false
-	st := Stats{Steps: step, Switches: len(trace), LockWaits: lockWaits, Overrun: overrun}
+	st := Stats{Steps: step, Switches: len(trace), LockWaits: lockWaits, Overrun: overrun, Unmanaged: unmanaged}
 	st.Trace = append([]TraceEntry(nil), trace...)
 	for i := 0; i < ng; i++ {
 		st.YieldsPerG = append(st.YieldsPerG, gs[i].yields)
